@@ -113,6 +113,7 @@ class Conn:
         self.waiting = 0               # clients: serial waited for
         self.disc_recorded = False
         self.disc_seq = None
+        self.held = {}                 # job id -> serial: pulled over this connection, not reported since
 
     @property
     def plugin(self):
@@ -226,6 +227,7 @@ class Driver:
         c.in_pull = c.in_wait = False
         c.resumed_ev = None
         c.disc_recorded = False
+        c.held = {}
         c.submitted.clear()
         c.greenlet = qs.rpcserver.ClientGreenlet(self.srv.handle_client, c.sock, ("127.0.0.1", c.idx))
         c.greenlet.start()
@@ -286,14 +288,29 @@ class Driver:
                 box = ev.value.serial
                 reach[box] = ev.value
             waiters[w] = {"on": True, "chs": sorted(watching), "box": box}
+        # what a connection "runs" is observed from outside (the jobs its pulls returned minus those
+        # it reported or killed since) - how QPlugin keeps its books is not the property's business.
+        # A pulled job whose id has been bound to a newer job is reachable only through the timeout
+        # queue or through what an earlier snapshot saw: `seen` remembers the objects of this incarnation.
+        for ent in getattr(wq, "timeoutq", ()):
+            j = ent[-1] if isinstance(ent, tuple) else ent
+            if hasattr(j, "serial"):
+                reach.setdefault(j.serial, j)
+        seen = self.__dict__.setdefault("_seen", {})
+        if seen.get("inc") != self.incarnation:
+            seen.clear()
+            seen["inc"] = self.incarnation
+        for s_, j in reach.items():
+            seen[s_] = j
+        for s_, j in seen.items():
+            if s_ != "inc":
+                reach.setdefault(s_, j)
         running = {}
         for w, c in self.conns.items():
             if c.state == "closed" or c.handler is None:      # handle_client drops the handler after shutdown()
                 running[w] = []
                 continue
-            running[w] = [j.serial for j in c.handler.running_jobs.values()]
-            for j in c.handler.running_jobs.values():
-                reach[j.serial] = j
+            running[w] = list(c.held.values())
         jobs = []
         for s in range(1, wq.count + 1):
             j = reach.get(s)
@@ -354,6 +371,7 @@ class Driver:
             if handler._inc != self.incarnation:
                 return ret
             c.in_pull = False
+            c.held[ret["jobid"]] = ret["serial"]
             if self.pending_post is ev:      # returned without blocking
                 ev["got"] = ret["serial"]
                 ev["post"] = self.snap()
@@ -404,6 +422,11 @@ class Driver:
             self.errors.append(("request", op, repr(e)))
             self._event(ev, seq)
             raise
+        if name == "qfinish":
+            c.held.pop(kw.get("jobid"), None)
+        elif name == "qkill":
+            for i in kw.get("jobids", []):
+                c.held.pop(i, None)
         if name == "qadd":
             ev["ret"] = ret
             ev["new"] = self.wq.count > n
@@ -420,6 +443,7 @@ class Driver:
         self._fill()
         call()
         c.state = "closed"
+        c.held = {}
         if c.name not in self.conns:
             return
         if c.resumed_ev is not None:
